@@ -1374,7 +1374,7 @@ def _model_world(kind):
             m = bd.BDSKModel("bdsk", tm, ps[0], ps[1], ps[2], rho=ps[3], origin=ps[4], survival=True)
         else:
             m = cbd.BirthDeathModel("bd", tm, ps[0], ps[1], ps[2], ps[3], ps[4], survival=True)
-        return (lambda: m()), [tm._internal_heights] + ps, {"node_heights": (lambda: tm.node_heights)}, [heights] + [V[k] for k in ("a", "b", "c", "rho", "origin")]
+        return (lambda: m()), [treemodels.tree_parameter(tm)] + ps, {"node_heights": (lambda: tm.node_heights)}, [heights] + [V[k] for k in ("a", "b", "c", "rho", "origin")]
     return make
 
 
